@@ -655,15 +655,14 @@ func (vc *VC) evalWriteTarget(env *SpecEnv, e ast.Expr, text string, add func(h,
 			if id, ok := ce.Fun.(*ast.Ident); ok && id.Name == "each" && len(ce.Args) == 4 {
 				name := ce.Args[0].(*ast.Ident).Name
 				lo, hi := env.eval(ce.Args[1]), env.eval(ce.Args[2])
-				env.depth++
-				bv := fmt.Sprintf("%s!w%d", sanitize(name), env.depth)
+				vc.bvN++
+				bv := fmt.Sprintf("%s!w%d", sanitize(name), vc.bvN)
 				inner := env.with(map[string]Term{name: intTerm(bv)})
 				vc.evalWriteTarget(inner, ce.Args[3], text, func(h, ref string) {
 					addCond(h, fmt.Sprintf("(exists ((%s Int)) (and (<= %s %s) (< %s %s) (= r!f %s)))", bv, lo.S, bv, bv, hi.S, ref))
 				}, func(h, cond string) {
 					addCond(h, fmt.Sprintf("(exists ((%s Int)) (and (<= %s %s) (< %s %s) %s))", bv, lo.S, bv, bv, hi.S, cond))
 				})
-				env.depth--
 				return
 			}
 			if id, ok := ce.Fun.(*ast.Ident); ok && id.Name == "eachkey" && len(ce.Args) == 3 {
@@ -671,8 +670,8 @@ func (vc *VC) evalWriteTarget(env *SpecEnv, e ast.Expr, text string, add func(h,
 				name := ce.Args[0].(*ast.Ident).Name
 				m := env.eval(ce.Args[1])
 				mi := vc.mapInfo(m.T)
-				env.depth++
-				bv := fmt.Sprintf("%s!w%d", sanitize(name), env.depth)
+				vc.bvN++
+				bv := fmt.Sprintf("%s!w%d", sanitize(name), vc.bvN)
 				inner := env.with(map[string]Term{name: vc.mk(bv, mi.K)})
 				dom := vc.mapDom(env.st, mi, m.S)
 				vc.evalWriteTarget(inner, ce.Args[2], text, func(h, ref string) {
@@ -680,7 +679,6 @@ func (vc *VC) evalWriteTarget(env *SpecEnv, e ast.Expr, text string, add func(h,
 				}, func(h, cond string) {
 					addCond(h, fmt.Sprintf("(exists ((%s %s)) (and (select %s %s) %s))", bv, mi.ks, dom, bv, cond))
 				})
-				env.depth--
 				return
 			}
 		}
